@@ -9,6 +9,8 @@
 extern "C" int XML_Parse(void* parser, const char* s, int len, int isFinal);
 extern "C" void XML_SetCharacterDataHandler(void* parser, void (*handler)(void*, const char*, int));
 
+namespace protozero { uint64_t decode_varint(const char** data, const char* end); }
+
 namespace osmium { namespace io {
 
 class Decompressor {
@@ -63,6 +65,14 @@ public:
 
     bool more() {
         return refill(1);
+    }
+
+    // W4: only one byte requested before a varint of up to 10 bytes is decoded from the window
+    uint64_t length() {
+        if (!refill(1)) {
+            return 0;
+        }
+        return protozero::decode_varint(&m_data, m_end);
     }
 };
 
